@@ -3,7 +3,7 @@ C16  No client-sent bytes can make the HTTP server's service loop raise
      (and no response bytes the client's).
 """
 from ..core import CaseTimeout as _CaseTimeout
-from .. import netlab, rawpeer, httpref
+from .. import netlab, rawpeer, httpref, httpgen
 from ..core import Result, digest
 from hio.core.http import serving as hserving, clienting as hclienting
 
@@ -29,7 +29,7 @@ COMPONENTS = dict(real=["hio.core.http.serving.Server/BareServer/Requestant/Resp
 ASSUMPTIONS = ["must-be-errored is demanded only for responses that violate the HTTP/1.1 grammar beyond doubt (status line, header line "
                "without any colon, chunk-size that is not 1*HEXDIG)"]
 PROBES = ["server_wsgi", "server_bare", "client_mode", "truncated_fin", "truncated_rst", "sibling_completed", "errored_response_reported",
-          "redirect_without_location", "chunk_size_mutation", "absolute_url_mutation", "long_line", "random_bytes"]
+          "redirect_without_location", "chunk_size_mutation", "absolute_url_mutation", "long_line", "random_bytes", "valid_message_mutated"]
 BOUNDS = dict(quick=dict(byz_connections=3), thorough=dict(byz_connections=4))
 TIERS = dict(quick=dict(cases=3000, wall=45.0), thorough=dict(cases=200000, wall=420.0))
 SIM_TIME_UNIT = "net steps"
@@ -37,9 +37,32 @@ SIM_TIME_UNIT = "net steps"
 CHUNK_SIZES = [b"zz", b"-5", b"+5", b"0x10", b"1_0", b"\xff\xfe", b"", b" ", b"ffffffffffffffffffff", b"5 5", b"g", b"3;ext=1", b"3 ; a", b"-0"]
 
 
+def mutate_bytes(tape, data):
+    """1-3 random byte-level edits (flip, insert, delete, duplicate a slice) of a valid message"""
+    data = bytearray(data)
+    for _ in range(1 + tape.draw("nmut", 3)):
+        if not data:
+            break
+        i = tape.draw("mut_at", len(data))
+        op = tape.draw("mut_op", 4)
+        if op == 0:
+            data[i] ^= 1 + tape.draw("mut_xor", 255)
+        elif op == 1:
+            data.insert(i, tape.pick("mut_ins", [0x0d, 0x0a, 0x3a, 0x20, 0x3b, 0x00, 0xff, 0x30, 0x2d]))
+        elif op == 2:
+            del data[i]
+        else:
+            j = min(len(data), i + 1 + tape.draw("mut_len", 8))
+            data[i:i] = data[i:j]
+    return bytes(data)
+
+
 def byz_request(tape):
     """returns (bytes, tag)"""
-    k = tape.draw("byz_kind", 14)
+    k = tape.draw("byz_kind", 16)
+    if k >= 14:
+        valid, _d = httpgen.gen_request(tape)
+        return mutate_bytes(tape, valid), "valid-mutated"
     if k == 0:
         return b"GET /a HTTP/1.1\r\n" + tape.pick("hdr", [b"Host:x", b"NoColonHere", b": novalue", b"A:", b"Host :x", b"X-A:b:c"]) + b"\r\n\r\n", "header-colon"
     if k == 1:
@@ -87,7 +110,10 @@ def byz_request(tape):
 
 def byz_response(tape, port2):
     """returns (bytes, tag, must_error)"""
-    k = tape.draw("byz_kind", 14)
+    k = tape.draw("byz_kind", 16)
+    if k >= 14:
+        valid, _d = httpgen.gen_response(tape)
+        return mutate_bytes(tape, valid), "valid-mutated", False
     if k == 0:
         h = tape.pick("hdr", [b"Content-Length:2", b"NoColonHere", b"A:", b"X :y"])
         return b"HTTP/1.1 200 OK\r\n" + h + b"\r\n\r\nok", "header-colon", h == b"NoColonHere"
@@ -290,6 +316,8 @@ def server_case(tape, tier, res):
             res.probes["long_line"] += 1
         if t.startswith("random"):
             res.probes["random_bytes"] += 1
+        if t.startswith("valid-mutated"):
+            res.probes["valid_message_mutated"] += 1
     for k in ("truncated_fin", "truncated_rst"):
         if res.faults.get(k):
             res.probes[k] += 1
@@ -387,6 +415,8 @@ def client_case(tape, tier, res):
             res.probes["long_line"] += 1
         if p["tag"].startswith("random"):
             res.probes["random_bytes"] += 1
+        if p["tag"].startswith("valid-mutated"):
+            res.probes["valid_message_mutated"] += 1
     res.nontrivial = nreq >= 2 and any(len(p["frags"]) >= 2 for p in plan)
     return cfg, events, sim_now, raised
 
